@@ -210,6 +210,26 @@ func C02step(c *vh.Ctx) {
 			if i == j {
 				continue
 			}
+			// sibling branches whose patterns differ only in such a value: each message goes where its own value says
+			if c.Mine(idx + 1) {
+				c.Eval()
+				spec := &core.Spec{Name: "siblings", Nodes: map[string]*core.Node{
+					"n0":    {Branches: &core.Branches{Type: "message", Branches: []*core.Branch{{Pattern: M{"code": clone(a)}, Target: "first"}, {Pattern: M{"code": clone(b)}, Target: "second"}}}},
+					"first": {Branches: &core.Branches{Type: "message"}}, "second": {Branches: &core.Branches{Type: "message"}}}}
+				if err := spec.Compile(context.Background(), nil, true); err == nil {
+					for want, v := range map[string]interface{}{"first": a, "second": b} {
+						stride, err := spec.Step(context.Background(), &core.State{NodeName: "n0", Bs: match.NewBindings()}, M{"code": clone(v), "extra": 1.0}, nil, nil)
+						got := "<nowhere>"
+						if err == nil && stride != nil && stride.To != nil {
+							got = stride.To.NodeName
+						}
+						if got != want {
+							c.Violation("C02/step/sibling-branch-pattern-not-found", fmt.Sprintf("a node with the branches {code:%s} -> first and {code:%s} -> second was given {code:%s}: it went to %s (err=%v)", rstep.Canon(a), rstep.Canon(b), rstep.Canon(v), got, err), msCaseStep{P: []interface{}{a, b}, M: v})
+							break
+						}
+					}
+				}
+			}
 			idx++
 			if !c.Mine(idx) {
 				continue
@@ -297,6 +317,45 @@ return {second: fresh, third: r3, inputs: [P, M, B]};`, rstep.Canon(cs.P), rstep
 			}
 			one(msCaseStep{P: p, M: m, B: M{}})
 			one(msCaseStep{P: p, M: m, B: M{"?x": 1.0}})
+		}
+	}
+	// Match is a function of its arguments - not of what else the process has done: the outcome (sets, or error)
+	// for valid and for refused patterns is the same before and after specifications have been compiled and walked
+	if c.Shard == 0 || c.Shards == 1 {
+		probes := []msCaseStep{
+			{P: M{"$type": "reading", "?sensor": M{"value": "?v"}}, M: M{"kitchen": M{"value": 20.0}}, B: M{}},
+			{P: M{"?k": 1.0, "z": 2.0}, M: M{"a": 1.0, "z": 2.0}, B: M{}},
+			{P: M{"a": []interface{}{"?x", "?y"}}, M: M{"a": []interface{}{1.0, 2.0}}, B: M{}},
+			{P: M{"a": "?<n"}, M: M{"a": 1.0}, B: M{"?<n": 2.0}},
+			{P: M{"?k": "?v"}, M: M{"p": 1.0, "q": 2.0}, B: M{}},
+			{P: []interface{}{"?x", 1.0}, M: []interface{}{1.0, 2.0, 3.0}, B: M{}},
+			{P: M{"a": "??o"}, M: M{}, B: M{}},
+		}
+		outcome := func(cs msCaseStep) string {
+			bss, err := match.Match(clone(cs.P), clone(cs.M), match.Bindings(cloneM(cs.B)))
+			if err != nil {
+				return "error"
+			}
+			return strings.Join(canonBs(bss), " ")
+		}
+		var before []string
+		for _, pr := range probes {
+			before = append(before, outcome(pr))
+		}
+		// what a host does in between: compile and walk specifications of several kinds
+		for _, as := range []*rstep.ASpec{
+			{Nodes: map[string]*rstep.ANode{"n0": {Type: "message", Branches: []rstep.ABranch{{Pattern: M{"?k": "?v"}, Target: "n0"}, {Pattern: M{"a": "?<n"}, Target: "n0"}}}}},
+			{Nodes: map[string]*rstep.ANode{"n0": {Type: "message", Branches: []rstep.ABranch{{Pattern: M{"a": []interface{}{"?x"}}, Guard: prog(false, Op{K: "set", A: "g", V: 1.0}), Target: "n0"}}}}},
+		} {
+			if spec, err := as.Build(); err == nil {
+				spec.Walk(context.Background(), &core.State{NodeName: "n0", Bs: match.NewBindings()}, []interface{}{M{"a": 1.0}, M{"p": 1.0}}, nil, nil)
+			}
+		}
+		for i, pr := range probes {
+			c.Eval()
+			if after := outcome(pr); after != before[i] {
+				c.Violation("C03/js/outcome-depends-on-what-the-process-did-before", fmt.Sprintf("Match(%s, %s, %s): before any specification was compiled in this process: [%s]; after: [%s]", rstep.Canon(pr.P), rstep.Canon(pr.M), rstep.Canon(pr.B), before[i], after), pr)
+			}
 		}
 	}
 }
